@@ -62,7 +62,19 @@ LIB_RS = "dora-parser/src/lib.rs"
 NEEDED = ["lex", "Lexer::new", "Lexer::read_token", "Lexer::is_eof", "Lexer::offset", "keywords_in_map",
           "compute_line_starts", "compute_line_column", "get_line_content"]
 MAX_DEPTH = 2          # shapes of the brace stack explored by the step family (complete for texts of <= 9 bytes)
-STEP_BOUND = 40000     # MIR blocks per path; the longest path of the unchanged lexer on 8 bytes needs < 3000
+# MIR blocks per path: measured on the unit-test texts, the unchanged lexer needs <= 151 blocks per byte, the parser <= 489
+# (plus ~300 for the keyword table); the bounds leave a factor of ~8.  A path that runs into its bound is a non-termination
+# CANDIDATE: it is decided by the native replay (a real run that does not finish), never by the bound itself.
+
+
+def lex_bound(nbytes):
+    return 3000 + 1500 * nbytes
+
+
+def parse_bound(nbytes):
+    return 6000 + 4000 * nbytes
+
+
 
 # skeletons: `@` = a block of K free symbolic bytes (K by tier) inside a string / char / comment body, where a free
 # byte forks ~5-8 ways; `?` = one free symbolic byte in token-start position, where it forks ~36 ways
@@ -501,7 +513,7 @@ def whole_body(par, lay, pid, family, label, spec):
     it = make_interp(par, lay, progress_observer=True)
 
     def body(ctx, out):
-        set_bound(ctx, out, STEP_BOUND)
+        set_bound(ctx, out, lex_bound(len(spec)))
         bs, inputs = text_value(ctx, spec)
         A = Asserter(pid, out, ctx, inputs, {"family": family, "label": label, "spec": spec})
         try:
@@ -535,7 +547,7 @@ def step_body(par, lay, pid, L, p):
     dmax = min(MAX_DEPTH, p // 3)
 
     def body(ctx, out):
-        set_bound(ctx, out, STEP_BOUND)
+        set_bound(ctx, out, lex_bound(L))
         spec = [None] * L
         bs, inputs = text_value(ctx, spec)
         if not ctx.branch(boundary(bs, p)):
@@ -764,7 +776,7 @@ def parse_body(par, lay, pid, L):
     it = make_interp(par, lay, parser=True, progress_observer=True)
 
     def body(ctx, out):
-        set_bound(ctx, out, 4 * STEP_BOUND)
+        set_bound(ctx, out, parse_bound(L))
         spec = [None] * L
         bs, inputs = text_value(ctx, spec)
         A = Asserter(pid, out, ctx, inputs, {"family": "parse", "label": "parse/L=%d" % L, "spec": spec})
@@ -893,7 +905,17 @@ def native_batch(nat, sub, texts, timeout=60):
     except subprocess.TimeoutExpired:
         p = None
     if p is None or p.returncode != 0:
-        return [native_run(nat, sub, t) for t in texts]
+        # some text makes the real function hang or die: single runs; after five such texts the remaining ones are not
+        # run (None: the validation skips them) - every one of them would cost the full timeout
+        out, hangs = [], 0
+        for t in texts:
+            if hangs >= 5:
+                out.append(None)
+                continue
+            r = native_run(nat, sub, t)
+            hangs += 1 if "hang" in r else 0
+            out.append(r)
+        return out
     per = [[] for _ in texts]
     for ln in p.stdout.splitlines():
         m = re.match(r"(\d+)\.(.*)$", ln)
@@ -1135,8 +1157,8 @@ def test_module(path):
     return src[i:] if i >= 0 else ""
 
 
-def enc_run(it, fn, args):
-    ex = Explorer(max_steps=400000)
+def enc_run(it, fn, args, max_steps=100000):
+    ex = Explorer(max_steps=max_steps)
     ctx = Ctx(ex, ())
     try:
         r = it.call(ctx, fn, args)
@@ -1172,8 +1194,10 @@ def validate_translator(par, lay, nat):
     all_lex = lex_texts + EXTRA_TEXTS
     reals = native_batch(nat, "tokens", [x.encode("utf-8") for x in all_lex])
     for s, real in zip(all_lex, reals):
+        if real is None:
+            continue
         tb = s.encode("utf-8")
-        st, r = enc_run(it, "lex", [Slice([Int(b, "u8") for b in tb], "str")])
+        st, r = enc_run(it, "lex", [Slice([Int(b, "u8") for b in tb], "str")], lex_bound(len(tb)))
         runs += 1
         if st != "ok" or "panic" in real or "hang" in real:
             if (st == "panic") != ("panic" in real) or (st == "diverges") != ("hang" in real):
@@ -1192,6 +1216,8 @@ def validate_translator(par, lay, nat):
     all_lines = line_texts + EXTRA_LINE_TEXTS
     reals = native_batch(nat, "lines", [x.encode("utf-8") for x in all_lines])
     for s, real in zip(all_lines, reals):
+        if real is None:
+            continue
         tb = s.encode("utf-8")
         text = Slice([Int(b, "u8") for b in tb], "str")
         st, ls = enc_run(it, "compute_line_starts", [text])
@@ -1227,8 +1253,10 @@ def validate_translator(par, lay, nat):
     ptexts = [x for x in all_lex if len(x.encode("utf-8")) <= 40] + PARSE_TEXTS
     reals = native_batch(nat, "parse", [x.encode("utf-8") for x in ptexts])
     for s, real in zip(ptexts, reals):
+        if real is None:
+            continue
         tb = s.encode("utf-8")
-        ex = Explorer(max_steps=2000000)
+        ex = Explorer(max_steps=parse_bound(len(tb)))
         ctx = Ctx(ex, ())
         try:
             p = itp.call(ctx, "Parser::from_string", [Slice([Int(b, "u8") for b in tb], "str")])
@@ -1478,7 +1506,8 @@ def finish(pid, tier, t0, cfg, reach, results, nat, nval, n_lex_texts, n_line_te
         "skeleton_free_bytes": cfg["skel_k"],
         "line_text_bytes": list(range(0, cfg["lines"] + 1)),
         "line_offsets": "every offset 0..L; every line number 0..lines+1",
-        "mir_blocks_per_path": STEP_BOUND,
+        "mir_blocks_per_path": "lexer families 3000 + 1500 per byte, parser family 6000 + 4000 per byte (a path reaching its bound is a non-termination "
+                               "candidate decided by the native replay)",
     }
     cov = {
         "obligations": obligations, "discharged": discharged,
